@@ -29,3 +29,9 @@ mod util;
 
 #[cfg(test)]
 mod tests;
+
+#[cfg(kani)]
+#[allow(unused_imports, dead_code)]
+mod verif_harness {
+    include!(concat!(env!("HUMPHREY_VERIF"), "/kani/in_ws.rs"));
+}
